@@ -584,7 +584,16 @@ def build_csrdec(cfg, log=None):
         else:
             res.append([0, int(r[0]), int(r[1])])
             subs.append(sb)
-    return Built(dec, extra=subs, res=res, log=log)
+    b = Built(dec, extra=subs, res=res, log=log)
+    placed = [r for r in res if r[0] == 0]
+    if placed:
+        def poke():
+            # a call that is refused between two elaborations (a new subordinate aimed at an occupied address)
+            late = csr.Interface(addr_width=1, data_width=cfg["dw"], path=("late",))
+            late.memory_map = mm_of(1, cfg["dw"])
+            dec.add(late, name="late", addr=placed[0][1])
+        b.poke = poke
+    return b
 
 
 def fill_csrdec(cfg):
@@ -761,6 +770,18 @@ def build_wbdec(cfg):
     wb = W.build(cfg)
     b = Built(wb.dec, extra=[sb for _, sb in wb.subs])
     b.results = wb.results
+    placed = [r for r in wb.results if r[0] == "ok"]
+    if placed:
+        def poke():
+            # refused between two elaborations: a new subordinate aimed at an occupied address
+            from amaranth_soc.memory import MemoryMap
+            bus = wb.dec.bus
+            late = wishbone.Interface(addr_width=1, data_width=bus.data_width, granularity=bus.granularity,
+                                      path=("late",))
+            late.memory_map = MemoryMap(addr_width=max(1, 1 + (bus.data_width // bus.granularity).bit_length() - 1),
+                                        data_width=bus.granularity)
+            wb.dec.add(late, name="late", addr=placed[0][1][0])
+        b.poke = poke
     return b
 
 
@@ -784,7 +805,9 @@ def build_arbiter(cfg):
         b = Built(None)
         b.add_refused = e.args[0]
         return b
-    return Built(arb, extra=intrs)
+    b = Built(arb, extra=intrs)
+    b.poke = lambda: arb.add(object())        # refused (TypeError) between two elaborations
+    return b
 
 
 def build_sram(cfg):
@@ -1076,6 +1099,13 @@ def run_impl(case):
             rec["exc"] = exc_info(e)
         rec["s"] = round(time.time() - t1, 3)
         o["elabs"].append(rec)
+        if k == 0 and getattr(b, "poke", None) is not None:
+            # "every elaboration yields the same hardware": also when a call was refused in between
+            try:
+                b.poke()
+                o["log"] = list(o["log"]) + [["poke", 0]]
+            except (ValueError, TypeError):
+                pass
         if o["meta"] is None:
             try:
                 d = snap_diff(snap0, snapshot(b))
